@@ -53,6 +53,16 @@ type c20Ent struct {
 	Acc  []string
 	Name []string
 	Seq  string
+	num  *c20Num // numbers to lay out in the rich form instead of the drawn ones (nil: draw)
+}
+
+// c20Num gives numeric attributes of one entry in the rich layout. A zero
+// field keeps what the layout does by itself.
+type c20Num struct {
+	Version     int // <entry version="...">
+	SeqVersion  int // <sequence version="...">
+	FeatureEnd  int // adds a chain feature 1..FeatureEnd and a single-position feature at FeatureEnd
+	EvidenceKey int // adds <evidence key="..."> and refers to it from the features
 }
 
 type c20Doc struct {
@@ -107,7 +117,11 @@ func c20Build(rng *rand.Rand, ents []c20Ent, rich bool) c20Doc {
 	for _, e := range ents {
 		d.start = append(d.start, b.Len())
 		if rich {
-			b.WriteString("<entry dataset=\"Swiss-Prot\" created=\"2009-05-05\" modified=\"2020-08-12\" version=\"" + strconv.Itoa(1+rng.Intn(200)) + "\"")
+			version := 1 + rng.Intn(200)
+			if e.num != nil && e.num.Version != 0 {
+				version = e.num.Version
+			}
+			b.WriteString("<entry dataset=\"Swiss-Prot\" created=\"2009-05-05\" modified=\"2020-08-12\" version=\"" + strconv.Itoa(version) + "\"")
 			if rng.Intn(2) == 0 {
 				b.WriteString(" xmlns=\"http://uniprot.org/uniprot\"")
 			}
@@ -138,7 +152,24 @@ func c20Build(rng *rand.Rand, ents []c20Ent, rich bool) c20Doc {
 			if rng.Intn(3) == 0 {
 				b.WriteString("  <!-- a comment -->\n  <keyword id=\"KW-1185\">Reference proteome</keyword>\n")
 			}
-			b.WriteString("  <sequence length=\"" + strconv.Itoa(len(e.Seq)) + "\" mass=\"" + strconv.Itoa(110*len(e.Seq)) + "\" checksum=\"" + c20Word(rng, "0123456789ABCDEF", 16, 16) + "\" modified=\"2009-05-05\" version=\"1\">" + e.Seq + "</sequence>\n")
+			seqVersion := 1
+			if e.num != nil {
+				ev := ""
+				if e.num.EvidenceKey != 0 {
+					ev = " evidence=\"" + strconv.Itoa(e.num.EvidenceKey) + "\""
+				}
+				if e.num.FeatureEnd != 0 {
+					b.WriteString("  <feature type=\"chain\" description=\"Protein " + c20Word(rng, c20AlNum, 3, 8) + "\" id=\"PRO_" + c20Word(rng, "0123456789", 10, 10) + "\"" + ev + ">\n    <location>\n      <begin position=\"1\"/>\n      <end position=\"" + strconv.Itoa(e.num.FeatureEnd) + "\"/>\n    </location>\n  </feature>\n")
+					b.WriteString("  <feature type=\"modified residue\" description=\"Phosphoserine\"" + ev + ">\n    <location>\n      <position position=\"" + strconv.Itoa(e.num.FeatureEnd) + "\"/>\n    </location>\n  </feature>\n")
+				}
+				if e.num.EvidenceKey != 0 {
+					b.WriteString("  <evidence type=\"ECO:0000269\" key=\"" + strconv.Itoa(e.num.EvidenceKey) + "\">\n    <source>\n      <dbReference type=\"PubMed\" id=\"" + c20Word(rng, "123456789", 8, 8) + "\"/>\n    </source>\n  </evidence>\n")
+				}
+				if e.num.SeqVersion != 0 {
+					seqVersion = e.num.SeqVersion
+				}
+			}
+			b.WriteString("  <sequence length=\"" + strconv.Itoa(len(e.Seq)) + "\" mass=\"" + strconv.Itoa(110*len(e.Seq)) + "\" checksum=\"" + c20Word(rng, "0123456789ABCDEF", 16, 16) + "\" modified=\"2009-05-05\" version=\"" + strconv.Itoa(seqVersion) + "\">" + e.Seq + "</sequence>\n")
 		} else {
 			b.WriteString("<sequence>" + e.Seq + "</sequence>")
 		}
@@ -609,7 +640,7 @@ func TestVerifC20(t *testing.T) {
 
 	// (2) small documents cut at EVERY byte offset
 	var small []c20Doc
-	small = append(small, c20Build(rng, []c20Ent{{[]string{"P1"}, []string{"N1"}, "MK"}, {[]string{"P2", "Q2"}, []string{"N2"}, "MV"}}, false))
+	small = append(small, c20Build(rng, []c20Ent{{Acc: []string{"P1"}, Name: []string{"N1"}, Seq: "MK"}, {Acc: []string{"P2", "Q2"}, Name: []string{"N2"}, Seq: "MV"}}, false))
 	if thorough {
 		small = append(small, c20RandomDoc(rng, 0, false, 4), c20RandomDoc(rng, 1, true, 8), c20RandomDoc(rng, 3, false, 6))
 	}
@@ -702,7 +733,7 @@ func TestVerifC20(t *testing.T) {
 	// and after the comment and in the white space before the root included.
 	// Added last and with its own stream for the capacities, so that the cases
 	// above stay what they were.
-	prologDoc := c20WithProlog(c20Build(rng, []c20Ent{{[]string{"P7"}, []string{"N7"}, "MA"}, {[]string{"P8", "Q8"}, []string{"N8"}, "ML"}}, false))
+	prologDoc := c20WithProlog(c20Build(rng, []c20Ent{{Acc: []string{"P7"}, Name: []string{"N7"}, Seq: "MA"}, {Acc: []string{"P8", "Q8"}, Name: []string{"N8"}, Seq: "ML"}}, false))
 	{
 		saved := rng
 		rng = rand.New(rand.NewSource(seed ^ 0x2020))
@@ -719,6 +750,78 @@ func TestVerifC20(t *testing.T) {
 					continue
 				}
 				addParse(d.text[:off], mode, false, d.truncShape(off), d.ents[:d.before(off)], true, desc)
+			}
+		}
+		rng = saved
+	}
+
+	// (5) both tiers: well-formed documents in the layout of the real dump in
+	// which ONE entry, in first, middle or last position among k, carries a
+	// large number in one of its numeric attributes: the revision count of a
+	// long-lived entry, the length and mass of a giant protein, feature
+	// positions at the end of such a protein, the key of a late evidence
+	// element. All k entries must come out as from any other document. Own
+	// stream again, added last.
+	nLarge := 0
+	{
+		saved := rng
+		rng = rand.New(rand.NewSource(seed ^ 0x202020))
+		type large struct {
+			shape string
+			what  string
+			num   c20Num
+			seq   int // sequence length of the entry, 0: as drawn
+		}
+		var larges []large
+		for _, v := range c20LargeVersions {
+			larges = append(larges, large{"version-attribute-beyond-255", fmt.Sprintf("<entry ... version=%q>", strconv.Itoa(v)), c20Num{Version: v}, 0})
+		}
+		for _, v := range c20LargeSeqVersions {
+			larges = append(larges, large{"sequence-version-attribute-beyond-255", fmt.Sprintf("<sequence ... version=%q>", strconv.Itoa(v)), c20Num{SeqVersion: v}, 0})
+		}
+		for _, n := range c20LargeSeqLens {
+			larges = append(larges, large{"sequence-length-and-mass-large", fmt.Sprintf("<sequence length=%q mass=%q ...> with that many letters", strconv.Itoa(n), strconv.Itoa(110*n)), c20Num{}, n},
+				large{"feature-position-large", fmt.Sprintf("features <end position=%q/> and <position position=%q/> on a sequence of that length", strconv.Itoa(n), strconv.Itoa(n)), c20Num{FeatureEnd: n}, n})
+		}
+		for _, key := range c20LargeEvidenceKeys {
+			larges = append(larges, large{"evidence-key-large", fmt.Sprintf("<evidence ... key=%q> referred to by two features", strconv.Itoa(key)), c20Num{EvidenceKey: key, FeatureEnd: 40}, 40})
+		}
+		for li, l := range larges {
+			for _, k := range []int{1, 2, 3, 9} {
+				for pos := 0; pos < 3; pos++ {
+					j := []int{0, k / 2, k - 1}[pos]
+					if pos > 0 && j == []int{0, k / 2, k - 1}[pos-1] {
+						continue // k too small for this position to be a new one
+					}
+					if thorough || l.seq <= 40 || k == 3 {
+						ents := make([]c20Ent, k)
+						for i := range ents {
+							ents[i] = c20NewEnt(rng, 60)
+						}
+						num := l.num
+						ents[j].num = &num
+						if l.seq > 0 {
+							ents[j].Seq = c20Word(rng, c20Amino, l.seq, l.seq)
+						}
+						d := c20Build(rng, ents, true)
+						where := "middle"
+						switch {
+						case k == 1:
+							where = "only"
+						case j == 0:
+							where = "first"
+						case j == k-1:
+							where = "last"
+						}
+						desc := fmt.Sprintf("entry %d of %d (the %s one) has %s; %s", j+1, k, where, l.what, docDesc(d))
+						mode := (li + k + pos) % 2
+						addParse(d.text, mode, true, l.shape, d.ents, false, desc)
+						if k == 3 {
+							addRead(c20Gzip(d.text), 1-mode, true, l.shape, d.ents, false, desc)
+						}
+						nLarge++
+					}
+				}
 			}
 		}
 		rng = saved
@@ -750,12 +853,15 @@ func TestVerifC20(t *testing.T) {
 	// ------------------------------------------------------------ judge
 	common := fmt.Sprintf("each call of Parse/Read in a child process (address space limited to 2 GiB), deadline %d ms per case (the largest document parses in a few ms), child killed after %v without progress; consumer either drains entries and then errors (documented usage) or both concurrently; ", deadlineMs, kill)
 	vE := newVerifRun("C20", "io/uniprot.Parse/post/entries", common+
-		fmt.Sprintf("well-formed documents with every k in 0..200 entries (%d seeded document(s) each; 1..3 accessions, 1..2 names, sequence text 1..60 letters; compact layout or the layout of the real dump with prolog, attributes, nested <name> elements, comments, copyright), channel capacities drawn from 0..100 with every capacity 0..100 used on each channel, plus cuts of small documents that lose only trailing white space; non-trivial = k >= 1", reps))
+		fmt.Sprintf("well-formed documents with every k in 0..200 entries (%d seeded document(s) each; 1..3 accessions, 1..2 names, sequence text 1..60 letters; compact layout or the layout of the real dump with prolog, attributes, nested <name> elements, comments, copyright), channel capacities drawn from 0..100 with every capacity 0..100 used on each channel, plus cuts of small documents that lose only trailing white space; "+
+			"plus %d documents in the layout of the real dump with k in {1, 2, 3, 9} entries (large sequences in the quick tier: k = 3 only) of which ONE, in first, middle or last position, carries a large number: entry version in %v (class version-attribute-beyond-255), sequence version in %v (sequence-version-attribute-beyond-255), "+
+			"a sequence of %v letters with its length and mass = 110 x length as attributes (sequence-length-and-mass-large), chain and single-position features ending at that length (feature-position-large), an evidence element with key in %v referred to by two features (evidence-key-large); all k entries with accessions, names and sequence text demanded as for any other document; non-trivial = k >= 1",
+			reps, nLarge, c20LargeVersions, c20LargeSeqVersions, c20LargeSeqLens, c20LargeEvidenceKeys))
 	vD := newVerifRun("C20", "io/uniprot.Parse/post/damaged-prefix", common+
 		fmt.Sprintf("%d small document(s) (<= 3 entries; compact, without XML declaration in the quick tier) cut at EVERY byte offset before the end of the root element (exhaustive, %s), and, in both tiers, one small document (2 entries, "+strconv.Itoa(len(prologDoc.text))+" bytes) that starts with an XML declaration, a newline, a comment '<!-- comment -->' and a newline before the <uniprot ...> root, also cut at EVERY byte offset, so that cuts inside and right after the declaration, inside and right after the comment, in the white space before the root and inside the root start tag are all covered (each must report >= 1 error and close both channels; class stem truncated-before-root); %d larger documents (2..200 entries) damaged in or before a chosen entry: mismatched end tag, '< ' or '& ' in text, byte 0x01, missing </entry>, unterminated start tag, '<<' between entries, cut at a random offset; plain through Parse (capacities 0..100), gzip-compressed through Read, and gzip files cut at a random offset (expected entries = those wholly inside what the standard decompressor recovers); demanded: expected entries first and in order, >= 1 error (on the channel, or returned by Read), both channels closed; non-trivial = every case",
 			len(small), map[bool]string{true: "both consumers", false: "consumers alternating"}[thorough], nBig))
 	vT := newVerifRun("C20", "io/uniprot.Parse/terminates", common+"every case of the clauses entries, damaged-prefix and gzip: the consumer returns (both channels seen closed) before the deadline; non-trivial = every case")
-	vG := newVerifRun("C20", "io/uniprot.Read/post/gzip", common+"well-formed documents (k = 0..3 and every 8th k up to 200) gzip-compressed into a temp file and read through Read (capacities fixed by Read at 100/100); same demands as the entries clause; non-trivial = k >= 1")
+	vG := newVerifRun("C20", "io/uniprot.Read/post/gzip", common+"well-formed documents (k = 0..3 and every 8th k up to 200) gzip-compressed into a temp file and read through Read (capacities fixed by Read at 100/100); same demands as the entries clause; plus every k = 3 document of the large-number part of the entries clause (entry version up to "+strconv.Itoa(c20LargeVersions[len(c20LargeVersions)-1])+", sequence version, sequence length and mass, feature positions, evidence key; same classes); non-trivial = k >= 1")
 	for _, v := range []*verifRun{vE, vD, vT, vG} {
 		v.Sampled()
 	}
@@ -776,13 +882,15 @@ func TestVerifC20(t *testing.T) {
 		v.Case(key, !s.wellForm || len(s.want) > 0)
 		vT.Case(key, true)
 		stem := s.shape
-		if s.wellForm {
+		if s.wellForm && s.shape == "" {
 			stem = "well-formed"
 		}
 		state := fmt.Sprintf("after %d ms: %d entr(ies) received, %d error(s) received (first: %q), entries closed %v, errors closed %v", o.ElapsedMs, len(o.Entries), o.NErr, c20Clip(o.FirstErr, 80), o.EClosed, o.XClosed)
 		if o.OpenErr != "" {
 			// Read refused the file: the error is reported by the call itself and nothing is left running
-			if s.wellForm {
+			if s.wellForm && s.shape != "" {
+				v.Fail(stem+"-read-refused", s.desc, "Read returned error "+o.OpenErr)
+			} else if s.wellForm {
 				v.Fail("read-refused", s.desc, "Read returned error "+o.OpenErr)
 			} else if len(s.want) > 0 {
 				v.Fail(stem+"-entries-missing", s.desc, "Read returned error "+o.OpenErr+" but "+strconv.Itoa(len(s.want))+" whole entries precede the damage")
@@ -796,7 +904,7 @@ func TestVerifC20(t *testing.T) {
 		if o.Hung || !o.EClosed || !o.XClosed {
 			cl := stem
 			if s.wellForm {
-				cl = "well-formed-not-terminated"
+				cl = stem + "-not-terminated"
 			}
 			vT.Fail(cl, s.desc, "consumer still blocked "+state)
 			v.Fail(cl, s.desc, "not terminated with both channels closed "+state)
@@ -820,6 +928,9 @@ func TestVerifC20(t *testing.T) {
 			cl := stem + "-entries-missing"
 			if s.wellForm {
 				cl = "entries-differ"
+				if s.shape != "" {
+					cl = s.shape // a well-formed document of a named shape (part 5)
+				}
 			}
 			v.Fail(cl, s.desc, bad+"; "+state)
 		}
@@ -832,6 +943,14 @@ func TestVerifC20(t *testing.T) {
 	vT.Done()
 	vG.Done()
 }
+
+// numbers of the documents of part (5)
+var (
+	c20LargeVersions     = []int{256, 257, 300, 1000, 32768, 65535, 65536, 100000}
+	c20LargeSeqVersions  = []int{256, 300}
+	c20LargeSeqLens      = []int{32768, 35213, 65536}
+	c20LargeEvidenceKeys = []int{256, 1000, 65536}
+)
 
 func c20Max(a, b int) int {
 	if a > b {
